@@ -194,6 +194,18 @@ def b_ite(c, a, b):
         if ca == cb:
             return ca
         return c if ca else b_not(c)
+    if is_z3(a) and a.eq(c):  # If(c, c, b) == c or b
+        return b_or(c, b)
+    if is_z3(b) and b.eq(c):  # If(c, a, c) == c and a
+        return b_and(c, a)
+    if ca is True:
+        return b_or(c, b)
+    if ca is False:
+        return b_and(b_not(c), b)
+    if cb is True:
+        return b_or(b_not(c), a)
+    if cb is False:
+        return b_and(c, a)
     return z3.If(c, zb(a), zb(b))
 
 
